@@ -2,6 +2,7 @@ mod common;
 mod engine;
 mod harness;
 mod host;
+mod judge;
 mod oracle;
 mod rng;
 mod worlds;
@@ -13,6 +14,8 @@ fn usage() -> ! {
     eprintln!("usage: axsim check <C01..C18> [--tier quick|thorough] [--runs N]\n       axsim replay <file>\n       axsim selftest");
     std::process::exit(2)
 }
+
+const RULE: &str = "one evaluation = one seeded simulated run (fresh host, generated schedule of 20-80 operations with faults, quiescent tail); distinct_nontrivial = number of distinct (abstract model state hash, operation kind) pairs in which an operation relevant to this property was judged against the reference model, union over all runs";
 
 struct Plan {
     quick: u64,
@@ -31,7 +34,11 @@ fn check(prop: &'static str, tier: &str, runs_override: Option<u64>) -> i32 {
     match prop {
         "C01" | "C02" | "C03" | "C08" | "C09" | "C13" | "C16" => {
             run::<worlds::g::WorldG>(&mut agg, prop, n(Plan { quick: 3000, thorough: 200_000 }), thorough, &known, cap);
-            rule = "one evaluation = one seeded simulated run (fresh host, generated schedule of 20-80 operations with faults, quiescent tail); distinct_nontrivial = number of distinct (abstract model state hash, operation kind) pairs in which an operation relevant to this property was judged against the reference model, union over all runs";
+            rule = RULE;
+        }
+        "C12" => {
+            run::<worlds::t::WorldT>(&mut agg, prop, n(Plan { quick: 3000, thorough: 200_000 }), thorough, &known, cap);
+            rule = RULE;
         }
         _ => {
             eprintln!("harness error: no check registered for {}", prop);
@@ -74,6 +81,7 @@ fn replay(path: &str) -> i32 {
     let known = Known::load();
     let code = match rf.world.as_str() {
         "G" => engine::replay::<worlds::g::WorldG>(&rf, &known),
+        "T" => engine::replay::<worlds::t::WorldT>(&rf, &known),
         w => {
             eprintln!("harness error: unknown world {}", w);
             2
